@@ -40,6 +40,7 @@ type c10exp struct {
 	t        time.Time
 	cs       string
 	cf       string
+	nCtx     int
 	before   time.Time
 	after    time.Time
 	state    string
@@ -104,6 +105,7 @@ func c10Worker(w *W) {
 						hookS = "" // a hook may legitimately return nothing; it still runs exactly once
 					}
 					hookF := fmt.Sprintf("cf-%d", seq)
+					nCtx := []int{2, 2, 3, 1, 2, 0, 8, 9, 2, 16, 17, 33, 2, 70}[seq%14]
 					ctx := cx.ctx
 					check := func(got context.Context) {
 						if got != ctx {
@@ -121,11 +123,15 @@ func c10Worker(w *W) {
 						log.FieldsFromContext = func(c context.Context) []log.Field {
 							cnt.fieldsN++
 							check(c)
-							return []log.Field{log.String("ctxk1", hookF), log.Int("ctxk2", seq)}
+							fs := []log.Field{log.String("ctxk1", hookF), log.Int("ctxk2", seq)}
+							for j := 3; j <= nCtx; j++ { // a hook may return any number of fields: all of them belong in the record
+								fs = append(fs, log.Int(fmt.Sprintf("ctxk%d", j), seq+j))
+							}
+							return fs[:nCtx]
 						}
 					}
 					lazy := func() []log.Field { cnt.lazyN++; return []log.Field{log.Msg(id), log.Int("own", 1)} }
-					ex := c10exp{id: id, entry: en.name, enabled: lr.has(en.level.Code()), mask: mask, t: hookT, cs: hookS, cf: hookF, state: state, ctxKind: cx.name, levelStr: en.level.Name()}
+					ex := c10exp{id: id, entry: en.name, enabled: lr.has(en.level.Code()), mask: mask, t: hookT, cs: hookS, cf: hookF, nCtx: nCtx, state: state, ctxKind: cx.name, levelStr: en.level.Name()}
 					ex.before = time.Now()
 					pv, st := catch(func() {
 						switch en.name {
@@ -250,10 +256,34 @@ func c10Worker(w *W) {
 			if ex.mask&2 == 0 && (strings.Contains(s, `"ctxString"`) || strings.Contains(s, "||cs-")) {
 				w.Violate("C10:record-ctxstring", "record carries a context string although the hook is unset: "+trunc(s, 300), cs)
 			}
-			if ex.mask&4 != 0 {
+			if ex.mask&4 != 0 && ex.nCtx >= 2 {
 				if pK1 < 0 || pK2 < 0 || pMsg < 0 || !(pK1 < pK2 && pK2 < pMsg) || (pCS >= 0 && pCS > pK1) {
 					w.Violate("C10:field-order", fmt.Sprintf("context fields must precede the call's fields (positions ctxString=%d ctxk1=%d ctxk2=%d msg=%d): %s", pCS, pK1, pK2, pMsg, trunc(s, 300)), cs)
 				}
+			}
+			if ex.mask&4 != 0 {
+				// every field the hook returned (0 to 70 of them), in the hook's order, ahead of the call's own fields - and no more
+				prev := pCS
+				for j := 1; j <= ex.nCtx+1; j++ {
+					var pj int
+					if isJSON {
+						pj = pos(fmt.Sprintf(`"ctxk%d":`, j))
+					} else {
+						pj = pos(fmt.Sprintf("||ctxk%d=", j))
+					}
+					if j > ex.nCtx {
+						if pj >= 0 {
+							w.Violate("C10:record-ctxfields", fmt.Sprintf("the hook returned %d fields, the record also carries ctxk%d: %s", ex.nCtx, j, trunc(s, 300)), cs)
+						}
+						break
+					}
+					if pj < 0 || pj < prev || (pMsg >= 0 && pj > pMsg) {
+						w.Violate("C10:record-ctxfields", fmt.Sprintf("the hook returned %d fields; ctxk%d is missing or out of place (position %d, previous %d, msg %d): %s", ex.nCtx, j, pj, prev, pMsg, trunc(s, 400)), cs)
+						break
+					}
+					prev = pj
+				}
+				w.Count("context_fields_checked", int64(ex.nCtx))
 			} else if strings.Contains(s, "ctxk1") {
 				w.Violate("C10:field-order", "record carries context fields although the hook is unset: "+trunc(s, 300), cs)
 			}
